@@ -15,7 +15,7 @@ From Coq Require Import List Arith Bool ZArith Permutation.
 Import ListNotations.
 From Onet Require Import Tree.TreeMarshal Tree.TreeMarshalProofs Overlay.TreeCtl Overlay.TreeCtlProofs
      Corr.C06 Tree.C06CheckProofs.
-From Onet Require Import Overlay.C06HistCheckProofs.
+From Onet Require Import Overlay.C06HistCheckProofs Overlay.TreeCtlRace Overlay.TreeCtlRaceProofs.
 From Onet Require Overlay.Done Overlay.C06DoneProofs.
 
 (* ---- Part A: flatten to ids, rebuild against the roster ------------------------------------- *)
@@ -348,3 +348,78 @@ Theorem c06_unsolicited_arrival_ignored : forall fx s i,
   Done.trees s i = Done.TAbsent -> Done.step fx s (Done.TreeArrive i) = Some s.
 Proof. exact C06DoneProofs.done_unsolicited_arrival_ignored. Qed.
 Print Assumptions c06_unsolicited_arrival_ignored.
+
+(* ---- Part C: the response handler's two critical sections ---------------------------------------
+
+   Part B runs every handler to completion. handleSendTree takes the tree store's lock twice
+   (IsRequested; later RegisterTree -> Set) with MakeTree in between and no lock held, and
+   handlers of different connections are different goroutines. Overlay/TreeCtlRace.v adds that
+   interleaving: RTest = the handler up to and including MakeTree, RSet k = the k-th such
+   handler stores, RSeq o = any operation of Part B in between. n4 = repair C06-N4 (test and
+   store in one critical section). *)
+
+(* the two sections back to back are the handler of Part B *)
+Theorem c06_test_then_set_is_handler : forall G gadd fx n4 (r : rst G) otm oro,
+  n4 = false \/ fix_n1 fx = true ->
+  let '(r1, _, oc1) := rstep gadd fx n4 r (RTest otm oro) in
+  let '(s', oc) := handle_send_tree gadd fx (r_base r) otm oro in
+  oc1 = oc /\
+  match oc with
+  | Fine => r_base (fst (fst (rstep gadd fx n4 r1 (RSet (length (r_fly r)))))) = s'
+  | _ => r_base r1 = s'
+  end.
+Proof. exact test_then_set_is_handler. Qed.
+Print Assumptions c06_test_then_set_is_handler.
+
+(* for EVERY interleaving and every variant: stored, requested, or made-and-not-yet-stored
+   only if this server registered the tree itself or sent a request for it *)
+Theorem c06_only_solicited_two_sections : forall G gadd fx n4 acts (r : rst G) oc,
+  rrun gadd fx n4 rinit acts = (r, oc) ->
+  (forall tid, tree_state (r_base r) tid <> Absent -> In tid (rasked acts)) /\
+  (forall t, In t (r_fly r) -> In (t_id t) (rasked acts)).
+Proof. exact race_only_solicited. Qed.
+Print Assumptions c06_only_solicited_two_sections.
+
+(* "never replaces a present tree" does NOT survive the window on the code as it is, even
+   with repair N1: two responses that both passed the test are both stored, the second
+   replaces the first; a response that passed the test replaces a tree registered locally
+   in the window. Both responses carry the requested id; when they describe the same tree
+   the second store changes nothing (next theorem); when they differ (a second, unsolicited
+   sender) the server ends with a tree other than the one its request was answered with.
+   Known finding C06-N4. *)
+Theorem c06_two_sections_replace_refuted :
+  (exists r4 r5, rrun Nat.add repaired false rinit (firstn 4 race_ops) = (r4, Fine) /\
+                 rrun Nat.add repaired false rinit race_ops = (r5, Fine) /\
+                 get_tree (r_base r4) 9 = Some w_t /\ get_tree (r_base r5) 9 = Some w_b /\ w_b <> w_t) /\
+  (exists r, rrun Nat.add repaired false rinit race_local_ops = (r, Fine) /\ get_tree (r_base r) 9 = Some w_b).
+Proof. exact (conj race_replaces_refuted race_replaces_local_refuted). Qed.
+Print Assumptions c06_two_sections_replace_refuted.
+
+(* same-content responses: storing the tree that is already stored changes no stored value;
+   and a store touches no other id *)
+Theorem c06_two_sections_same_content : forall G n4 (s : cst G) (t : stree G) tid,
+  lookup (c_store s) (t_id t) = Some (Some t) ->
+  lookup (c_store (arrival_set n4 s t)) tid = lookup (c_store s) tid.
+Proof. exact set_same_content_harmless. Qed.
+Print Assumptions c06_two_sections_same_content.
+
+Theorem c06_two_sections_own_id_only : forall G n4 (s : cst G) (t : stree G) tid,
+  tid <> t_id t -> lookup (c_store (arrival_set n4 s t)) tid = lookup (c_store s) tid.
+Proof. exact set_touches_own_id_only. Qed.
+Print Assumptions c06_two_sections_own_id_only.
+
+(* with N4 (and N1): whatever runs in the window, no action a peer causes replaces a
+   present tree; the witnesses above end with the first tree *)
+Theorem c06_two_sections_never_replace : forall G gadd fx (r : rst G) (a : ract G) r' outs oc tid,
+  fix_n1 fx = true -> rpeer a = true ->
+  rstep gadd fx true r a = (r', outs, oc) ->
+  lookup (c_store (r_base r')) tid <> lookup (c_store (r_base r)) tid ->
+  tree_state (r_base r) tid <> Present.
+Proof. exact race_never_replaces. Qed.
+Print Assumptions c06_two_sections_never_replace.
+
+Theorem c06_two_sections_repaired :
+  (exists r, rrun Nat.add repaired true rinit race_ops = (r, Fine) /\ get_tree (r_base r) 9 = Some w_t) /\
+  (exists r, rrun Nat.add repaired true rinit race_local_ops = (r, Fine) /\ get_tree (r_base r) 9 = Some w_t).
+Proof. exact race_repaired. Qed.
+Print Assumptions c06_two_sections_repaired.
